@@ -65,6 +65,13 @@ class C17(Harness):
             for m in mechs(tier):
                 for post in sub_posts:
                     out.append({'cls': 'TopSub', 'pre': pre, 'mech': m, 'post': post})
+        # the copy is taken while a batch / discard block is open on the original (after an assignment inside it): the copy is an object of
+        # its own, outside any block, with nothing queued
+        for during in ('batch', 'discard'):
+            for pre in ([], [['watch']], [['watch_vw']]):
+                for m in mechs(tier):
+                    for post in posts[:len(POST) * 2 + 1]:
+                        out.append({'cls': 'Top', 'pre': pre, 'mech': m, 'post': post, 'during': during})
         return out
 
     # ---------------------------------------------------------------
@@ -169,6 +176,13 @@ class C17(Harness):
         o = getattr(C, case['cls'])()
         for op in case['pre']:
             self.apply(C, o, op)
+        cm = None
+        if case.get('during'):
+            import param
+            key['during'] = case['during']
+            cm = {'batch': param.parameterized.batch_call_watchers, 'discard': param.parameterized.discard_events}[case['during']](o)
+            cm.__enter__()
+            o.v = 4
         try:
             if case['mech'][0] == 'deepcopy':
                 c = copy.deepcopy(o)
@@ -177,6 +191,8 @@ class C17(Harness):
         except Exception as e:
             return Result([V('copy-raises', '%s: %s raised %r' % (ctx, case['mech'], e), exc=type(e).__name__, **key)], outcome='raises')
         so, sc = self.snapshot(o), self.snapshot(c)
+        if cm is not None:
+            cm.__exit__(None, None, None)
         if so != sc:
             diff = [k for k in so if so[k] != sc[k]]
             vs.append(V('copy-not-equal', '%s: right after the copy these differ: %r (original %r, copy %r)' % (ctx, diff, {k: so[k] for k in diff}, {k: sc[k] for k in diff}),
